@@ -1,6 +1,7 @@
 package varmq
 
 import (
+	"math"
 	"encoding/json"
 	"reflect"
 
@@ -231,8 +232,17 @@ func VerifAddUnencodable(kind int) (bool, int, int, uint64, int) {
 		payload = func() {}
 	case 2:
 		payload = map[string]any{"x": make(chan int)}
-	default:
+	case 3:
 		payload = []any{1, func() {}}
+	case 4:
+		// numbers that have no JSON encoding: encoding/json refuses them, a hand-written number formatter does not
+		payload = math.NaN()
+	case 5:
+		payload = math.Inf(1)
+	case 6:
+		payload = float32(math.Inf(-1))
+	default:
+		payload = map[string]any{"v": math.NaN()}
 	}
 	w := newWorker(func(j iJob[any]) {})
 	st := &verifStore{}
